@@ -1,6 +1,7 @@
 import JmesVerif.Lemmas.Builtins
 import JmesVerif.Lemmas.F64Spec
 import JmesVerif.Lemmas.SumAvg
+import JmesVerif.Lemmas.FunctionsSpec
 /-!
 # C02 — every built-in function computes the value the specification defines
 
@@ -234,3 +235,207 @@ end JmesVerif
 #print axioms JmesVerif.C02_sum_ints
 #print axioms JmesVerif.C02_avg_ints
 #print axioms JmesVerif.C02_sum_step
+
+/-! ## All 26 builtins against one specification
+
+`Spec/Functions.lean` states the JMESPath function specification as one relation
+`Spec.Fn.result b args ev v` ("`v` is a value the specification allows `b(args)` to return", `ev` = the
+evaluation of an expression reference on an element), written independently of `Builtin.pure`.
+The theorems below (proofs in `Lemmas/FunctionsSpec.lean`, by cases over the 26 builtins) say that
+*every* successful call of *every* builtin on *every* argument list its signature admits returns such a
+value, and that a valid call of a builtin without expression reference always returns. -/
+namespace JmesVerif
+open Spec.Fn
+
+/-- **C02, all builtins at once.**  For each of the 26 builtins `b`, every registry, budget and offset,
+and every argument list that
+* satisfies `b`'s declared signature (`hv`),
+* is well formed — numbers are finite canonical doubles, objects have strictly ascending member names,
+  which is what `serde_json::Number` and `BTreeMap` guarantee (`hwf`),
+* makes the expression reference, where there is one, produce only finite numbers as keys (`hkeys`;
+  vacuous for the 22 builtins without expression reference and for `map`),
+* is not in the one deviation class `ToNumberPadded` (`to_number` of a number token padded with
+  whitespace, see `C02_to_number_padded_deviation`),
+
+a successful call returns a value that the function specification allows.  `evalRef rt fuel e x` is the
+value of `interp rt fuel x e _` (`C02_evalRef_is_interp`): the reference is evaluated once per element,
+against that element. -/
+theorem C02_every_builtin_meets_spec (rt : Registry) (fuel : Nat) (b : Builtin) (args : List Val)
+    (off : Nat) (v : Val) (off' : Nat)
+    (hv : b.sig.validate args off = .ok ())
+    (hwf : ∀ a ∈ args, WellFormed a)
+    (hkeys : ∀ e xs, Val.expref e ∈ args → Val.arr xs ∈ args → ∀ x ∈ xs, ∀ n,
+      evalRef rt fuel e x = some (.num n) → n.toF64.isFinite = true)
+    (hdev : ¬ ToNumberPadded b args)
+    (h : callFn rt fuel (.builtin b) args off = .ok (v, off')) :
+    result b args (evalRef rt fuel) v :=
+  callFn_meets_spec rt fuel b args off v off' hv hwf hkeys hdev h
+
+/-- the 22 builtins without expression reference: the body alone, no evaluator involved -/
+theorem C02_every_pure_builtin_meets_spec (b : Builtin) (hb : b.usesExpref = false) (args : List Val)
+    (off : Nat) (hv : b.sig.validate args off = .ok ()) (hwf : ∀ a ∈ args, WellFormed a)
+    (hdev : ¬ ToNumberPadded b args) (ev : Ev) (v : Val) (h : b.pure args = .ok v) :
+    result b args ev v :=
+  pure_meets_spec b hb args off hv hwf hdev ev v h
+
+/-- what `evalRef` is: the value of a run of `interp` on the element at the same budget (from any
+offset), and the value of every successful run at a smaller budget -/
+theorem C02_evalRef_is_interp (rt : Registry) (fuel : Nat) (e : Ast) (x v : Val) :
+    (evalRef rt fuel e x = some v ↔ ∃ o', interp rt fuel x e 0 = .ok (v, o')) ∧
+    (∀ f o o', f ≤ fuel → interp rt f x e o = .ok (v, o') → evalRef rt fuel e x = some v) := by
+  refine ⟨?_, fun f o o' hle h => evalRef_of_interp rt h hle⟩
+  unfold evalRef
+  cases interp rt fuel x e 0 with
+  | error err => simp
+  | ok p => obtain ⟨w, o⟩ := p; simp
+
+/-- **a valid call of a builtin without expression reference always returns**: a value, with the offset
+register unchanged, or — for `abs avg ceil floor sum` only — the internal "not a finite double" error;
+never a panic (`unreachable!()`, index out of bounds), a runtime error, or an exhausted budget
+(cf. `C05_builtins_no_unreachable`, `C06_no_unreachable`) -/
+theorem C02_valid_call_outcomes (rt : Registry) (fuel : Nat) (b : Builtin) (args : List Val) (off : Nat)
+    (hv : b.sig.validate args off = .ok ()) (hb : b.usesExpref = false) :
+    (∃ v, callFn rt (fuel + 1) (.builtin b) args off = .ok (v, off)) ∨
+    (∃ msg, callFn rt (fuel + 1) (.builtin b) args off = .error (.internal msg) ∧
+      b ∈ [Builtin.abs, .avg, .ceil, .floor, .sum]) :=
+  valid_call_outcomes rt fuel b args off hv hb
+
+/-- on well-formed arguments only `sum` and `avg` can end in that error (a partial sum or the quotient
+left the double range: finding F14) -/
+theorem C02_valid_call_outcomes_wellformed (rt : Registry) (fuel : Nat) (b : Builtin) (args : List Val)
+    (off : Nat) (hv : b.sig.validate args off = .ok ()) (hb : b.usesExpref = false)
+    (hwf : ∀ a ∈ args, WellFormed a) :
+    (∃ v, callFn rt (fuel + 1) (.builtin b) args off = .ok (v, off)) ∨
+    (∃ msg, callFn rt (fuel + 1) (.builtin b) args off = .error (.internal msg) ∧
+      b ∈ [Builtin.avg, .sum]) :=
+  valid_call_outcomes_wf rt fuel b args off hv hb hwf
+
+/-- **machine-checked deviation** (why `hdev` is there): `to_number(" 1 ")` returns `1`; `" 1 "` does
+not match `json-number`, so the specification gives `null` -/
+theorem C02_to_number_padded_deviation :
+    Builtin.pure .toNumber [.str " 1 "] = .ok (.num (.pos 1)) ∧
+    ToNumberPadded .toNumber [.str " 1 "] ∧
+    ¬ toNumberSpec [.str " 1 "] (.num (.pos 1)) :=
+  toNumber_padded_deviation
+
+/-! ### non-vacuity: concrete calls that meet all hypotheses -/
+
+theorem genuine_pos (k : Nat) (h : k ≤ 2 ^ 53) : Genuine (.pos k) :=
+  ⟨(F64.ofNat_exact k h).1, F64.ofRat_canon _⟩
+
+/-- `sort([3, 1, 2])` -/
+example : ∃ v, callFn [] 1 (.builtin .sort) [.arr [.num (.pos 3), .num (.pos 1), .num (.pos 2)]] 0 = .ok (v, 0) ∧
+    result .sort [.arr [.num (.pos 3), .num (.pos 1), .num (.pos 2)]] (evalRef [] 1) v := by
+  have hv : Builtin.sort.sig.validate [.arr [.num (.pos 3), .num (.pos 1), .num (.pos 2)]] 0 = .ok () :=
+    (validate_one _ _ _).2 ⟨_, rfl, by simp [ArgT.isValid, anyValid, allValid, arrStr, arrNum, Val.type]⟩
+  have hwf : ∀ a ∈ [Val.arr [.num (.pos 3), .num (.pos 1), .num (.pos 2)]], WellFormed a := by
+    intro a ha
+    simp only [List.mem_singleton] at ha
+    subst ha
+    intro n hn
+    simp only [List.mem_cons, Val.num.injEq, List.not_mem_nil, or_false] at hn
+    rcases hn with rfl | rfl | rfl <;> exact genuine_pos _ (by decide)
+  rcases C02_valid_call_outcomes [] 0 .sort _ 0 hv rfl with ⟨v, h⟩ | ⟨msg, _, hm⟩
+  · exact ⟨v, h, C02_every_builtin_meets_spec [] 1 .sort _ 0 v 0 hv hwf (by simp)
+      (by rintro ⟨h, _⟩; cases h) h⟩
+  · simp at hm
+
+/-- `merge({"a": 1, "b": 2}, {"b": 3})` -/
+example : ∃ v, callFn [] 1 (.builtin .merge)
+      [.obj [("a", .num (.pos 1)), ("b", .num (.pos 2))], .obj [("b", .num (.pos 3))]] 0 = .ok (v, 0) ∧
+    result .merge [.obj [("a", .num (.pos 1)), ("b", .num (.pos 2))], .obj [("b", .num (.pos 3))]]
+      (evalRef [] 1) v := by
+  have hv : Builtin.merge.sig.validate
+      [.obj [("a", .num (.pos 1)), ("b", .num (.pos 2))], .obj [("b", .num (.pos 3))]] 0 = .ok () :=
+    (validate_var _ _ _ _).2 ⟨_, _, rfl, by simp [ArgT.isValid, Val.type], by simp [ArgT.isValid, Val.type]⟩
+  have hwf : ∀ a ∈ [Val.obj [("a", .num (.pos 1)), ("b", .num (.pos 2))], .obj [("b", .num (.pos 3))]],
+      WellFormed a := by
+    intro a ha
+    simp only [List.mem_cons, List.not_mem_nil, or_false] at ha
+    rcases ha with rfl | rfl
+    · show AscendingKeys _
+      simp only [AscendingKeys, List.pairwise_cons, List.mem_singleton, List.not_mem_nil]
+      refine ⟨fun p hp => ?_, by simp⟩
+      subst hp
+      decide
+    · show AscendingKeys _
+      simp [AscendingKeys]
+  rcases C02_valid_call_outcomes [] 0 .merge _ 0 hv rfl with ⟨v, h⟩ | ⟨msg, _, hm⟩
+  · exact ⟨v, h, C02_every_builtin_meets_spec [] 1 .merge _ 0 v 0 hv hwf (by simp)
+      (by rintro ⟨h, _⟩; cases h) h⟩
+  · simp at hm
+
+/-- `max_by([{"a": "x"}, {"a": "y"}], &a)` returns `{"a": "y"}`, and the specification allows it -/
+example : callFn [] 4 (.builtin .maxBy)
+      [.arr [.obj [("a", .str "x")], .obj [("a", .str "y")]], .expref (.field 0 "a")] 0
+      = .ok (.obj [("a", .str "y")], 0) ∧
+    result .maxBy [.arr [.obj [("a", .str "x")], .obj [("a", .str "y")]], .expref (.field 0 "a")]
+      (evalRef [] 4) (.obj [("a", .str "y")]) := by
+  have hc : compare "y" "x" = Ordering.gt := by decide
+  have h : callFn [] 4 (.builtin .maxBy)
+      [.arr [.obj [("a", .str "x")], .obj [("a", .str "y")]], .expref (.field 0 "a")] 0
+      = .ok (.obj [("a", .str "y")], 0) := by
+    rw [callFn_maxBy]
+    simp [byExtreme, keysTyped, interp, Val.type, Val.getField, Val.lookup, Val.cmp, hc]
+  refine ⟨h, C02_every_builtin_meets_spec [] 4 .maxBy _ 0 _ 0 ?_ ?_ ?_ (by rintro ⟨h, _⟩; cases h) h⟩
+  · exact (validate_two _ _ _ _).2 ⟨_, _, rfl, by simp [ArgT.isValid, Val.type], by simp [ArgT.isValid, Val.type]⟩
+  · intro a ha
+    simp only [List.mem_cons, List.not_mem_nil, or_false] at ha
+    rcases ha with rfl | rfl
+    · intro n hn; simp at hn
+    · trivial
+  · intro e xs he hxs x hx n hn
+    simp only [List.mem_cons, Val.expref.injEq, List.not_mem_nil, or_false, reduceCtorEq, false_or] at he
+    simp only [List.mem_cons, Val.arr.injEq, List.not_mem_nil, or_false, reduceCtorEq, or_false] at hxs
+    subst he; subst hxs
+    simp only [List.mem_cons, List.not_mem_nil, or_false] at hx
+    rcases hx with rfl | rfl <;> simp [evalRef, interp, Val.getField, Val.lookup] at hn
+
+/-! ### the specification is not vacuous either: it rejects wrong answers -/
+
+/-- an unsorted answer is not a `sort` -/
+example (ev : Ev) : ¬ result .sort [.arr [.str "b", .str "a"]] ev (.arr [.str "b", .str "a"]) := by
+  rintro ⟨ys, hy, _, hs, _⟩
+  cases hy
+  simp only [List.pairwise_cons, List.mem_singleton, forall_eq] at hs
+  exact absurd hs.1 (show ¬ ("b".toList ≤ "a".toList) by decide)
+
+/-- a smaller element is not a `max` -/
+example (ev : Ev) : ¬ result .max [.arr [.str "a", .str "b"]] ev (.str "a") := by
+  rintro (⟨h, _⟩ | ⟨_, h⟩)
+  · cases h
+  · exact absurd (h (.str "b") (by simp)) (show ¬ ("b".toList ≤ "a".toList) by decide)
+
+/-- `map` may not drop an element (as a projection would drop a `null`) -/
+example (ev : Ev) (e : Ast) (x : Val) : ¬ result .map [.expref e, .arr [x]] ev (.arr []) := by
+  rintro ⟨ys, hy, h⟩
+  cases hy
+  simp at h
+
+/-- a left-biased `merge` is rejected -/
+example (ev : Ev) : ¬ result .merge [.obj [("a", .null)], .obj [("a", .bool true)]] ev (.obj [("a", .null)]) := by
+  rintro ⟨m, hm, _, h⟩
+  cases hm
+  rcases h "a" with ⟨pre, kvs, suf, x, he, hk, hr, hn⟩ | ⟨hr, _⟩
+  · simp only [member, Val.lookup, if_true, Option.some.injEq] at hr
+    subst hr
+    rcases pre with _ | ⟨p, _ | ⟨q, pre⟩⟩
+    · simp only [List.nil_append, List.cons.injEq, Val.obj.injEq] at he
+      obtain ⟨_, rfl⟩ := he
+      have := hn [("a", .bool true)] (by simp)
+      simp [member, Val.lookup] at this
+    · simp only [List.cons_append, List.nil_append, List.cons.injEq, Val.obj.injEq] at he
+      obtain ⟨_, rfl, _⟩ := he
+      simp [member, Val.lookup] at hk
+    · have := congrArg List.length he
+      simp at this
+  · simp [member, Val.lookup] at hr
+
+end JmesVerif
+
+#print axioms JmesVerif.C02_every_builtin_meets_spec
+#print axioms JmesVerif.C02_every_pure_builtin_meets_spec
+#print axioms JmesVerif.C02_evalRef_is_interp
+#print axioms JmesVerif.C02_valid_call_outcomes
+#print axioms JmesVerif.C02_valid_call_outcomes_wellformed
+#print axioms JmesVerif.C02_to_number_padded_deviation
